@@ -66,6 +66,8 @@ func MaybeChild() {
 		if c != nil {
 			out["server_app"] = c.GetString("/tars/application/server<app>")
 			out["client_probe"] = c.GetStringWithDef("/tars/application/client<verif-probe>", "<absent>")
+			out["queue_caps"] = tars.VerifAdapterQueueCaps()
+			out["server_queue_cap"] = tars.GetServerConfig().QueueCap
 		}
 		b, _ := json.Marshal(out)
 		fmt.Printf("CONF %s\n", b)
